@@ -58,6 +58,8 @@ pub struct Slot {
     pub payload: std::cell::UnsafeCell<Payload>,
     pub idx: usize,
     pub panic_on_drop: Cell<bool>,
+    /// User code in the destructor that calls back into the crate (0 = none; see interp).
+    pub drop_action: Cell<u8>,
 }
 
 #[derive(Clone, Debug)]
@@ -187,6 +189,7 @@ impl<K: Kind> SimArc<K> {
                     payload: std::cell::UnsafeCell::new(Payload::default()),
                     idx,
                     panic_on_drop: Cell::new(false),
+                    drop_action: Cell::new(0),
                 }));
                 let addr = &*a.slots[idx] as *const Slot as usize;
                 a.by_addr.insert(addr, idx);
@@ -217,6 +220,7 @@ impl<K: Kind> SimArc<K> {
                 };
             }
             s.panic_on_drop.set(false);
+            s.drop_action.set(0);
             s.cell.reset();
             addr as *const Slot
         });
@@ -247,6 +251,7 @@ impl<K: Kind> SimArc<K> {
                 payload: std::cell::UnsafeCell::new(Payload::default()),
                 idx: usize::MAX,
                 panic_on_drop: Cell::new(false),
+                drop_action: Cell::new(0),
             }));
         }
         DUMMY.with(|d| *d)
@@ -423,6 +428,15 @@ impl<K: Kind> Drop for SimArc<K> {
         if rt::is_aborting() {
             return;
         }
+        let action = s.drop_action.get();
+        if action != 0 && !std::thread::panicking() && !rt::is_aborting() {
+            // the pointee's destructor is user code: it may use the crate itself
+            s.drop_action.set(0);
+            crate::interp::run_drop_action(action);
+            if rt::is_aborting() {
+                return;
+            }
+        }
         if s.panic_on_drop.get() && !std::thread::panicking() && !rt::is_aborting() {
             s.panic_on_drop.set(false);
             let (lp, op) = rt::last_probe_and_op();
@@ -470,6 +484,20 @@ pub fn arm_panic_at(addr: usize) -> bool {
         match a.by_addr.get(&addr) {
             Some(si) if a.slots[*si].state.get() == ST_LIVE => {
                 a.slots[*si].panic_on_drop.set(true);
+                true
+            }
+            _ => false,
+        }
+    })
+}
+
+/// Arms the destructor of the live object at `addr` with a nested operation.
+pub fn arm_action_at(addr: usize, action: u8) -> bool {
+    ARENA.with(|a| {
+        let a = a.borrow();
+        match a.by_addr.get(&addr) {
+            Some(si) if a.slots[*si].state.get() == ST_LIVE => {
+                a.slots[*si].drop_action.set(action);
                 true
             }
             _ => false,
